@@ -37,6 +37,7 @@ func c06(c *Ctx) {
 	c06codec(c)
 	c06notFoundIsNotAnError(c)
 	c06atomicTTL(c)
+	c06retryOwnsKeys(c)
 }
 
 // isCeilSeconds: s is int(math.Ceil(X.Seconds())); returns X.
@@ -970,7 +971,11 @@ func c06invalidate(c *Ctx) {
 			if cl := es[0].Call.Args[0].Strip(false); cl.Kind == px.KClosure {
 				task = cl.Fn
 			}
-			if !isParam(es[0].Call.Args[1], f.Params[len(f.Params)-1]) {
+			kp := f.Params[len(f.Params)-1]
+			ks := es[0].Call.Args[1].Strip(false)
+			// its keys, or a private copy of them: append([]string(nil), keys...)
+			isCopy := ks.Kind == px.KCall && ks.Call != nil && ks.Call.Builtin == "append" && len(ks.Call.Args) == 2 && px.IsNilConst(ks.Call.Args[0]) && isParam(ks.Call.Args[1], kp)
+			if !isParam(ks, kp) && !isCopy {
 				return false, "task registered for other keys"
 			}
 			return true, ""
